@@ -122,9 +122,38 @@ CommitFrames(n) ==
 Owner(n, k, rot)  == IF n = 0 \/ k > n THEN "vx" ELSE ValId(((k - 1 + rot) % n) + 1)
 Other(n, k, rot)  == IF n = 0 THEN "vx" ELSE ValId(((k + rot) % n) + 1)
 
+\* ---------------------------------------------------------------- the wire (validator set decoded from its proto form)
+\* wire == [path, total, proposer, prio]: how the validator set under test came into being
+\*   path      none: built in memory (NewValidatorSet) | valset: ToProto -> bytes -> ValidatorSetFromProto
+\*             | lightblock: inside a LightBlock (LightBlockFromProto; the commit travels with it)
+\*   total     what the adversary wrote into the unauthenticated total_voting_power field
+\*   proposer  which validator record sits in the (equally unauthenticated) proposer field
+\*   prio      proposer priorities kept or scrambled
+NoWire == [path |-> "none", total |-> "zero", proposer |-> "same", prio |-> "same"]
+WV(path, total, proposer, prio) == [path |-> path, total |-> total, proposer |-> proposer, prio |-> prio]
+TotalTags == {"zero", "one", "small", "half", "sum", "sum_plus_1", "max", "over"}
+WireVariants ==
+       {WV("valset", t, "same", "same") : t \in TotalTags}
+  \cup {WV("valset", t, pr, "same") : t \in {"zero", "one"}, pr \in {"other", "outsider", "nil"}}
+  \cup {WV("valset", t, "same", "scrambled") : t \in {"zero", "one"}}
+  \cup {WV("lightblock", t, "same", "same") : t \in {"zero", "one", "small", "sum_plus_1"}}
+  \cup {WV("lightblock", "one", "other", "scrambled")}
+\* the number behind a tag, for the set vs
+ForgedTotal(tag, vs) ==
+  CASE tag = "zero"       -> N0                      \* what every honest encoder writes
+    [] tag = "one"        -> NOf(1)
+    [] tag = "small"      -> vs[1].power
+    [] tag = "half"       -> NDiv(Total(vs), NOf(2))
+    [] tag = "sum"        -> Total(vs)
+    [] tag = "sum_plus_1" -> NAdd(Total(vs), NOf(1))
+    [] tag = "max"        -> NMaxTotal
+    [] tag = "over"       -> NAdd(NMaxTotal, NOf(1))
+ProposerField(tag, vs) ==
+  IF tag = "nil" THEN "nil" ELSE IF tag = "outsider" THEN "vx" ELSE IF tag = "other" THEN vs[Len(vs)].id ELSE vs[1].id
+
 CaseOf(pv, f, kinds) ==
   LET n == Len(pv) IN
-  [pv |-> pv, frame |-> f.name, kinds |-> kinds,
+  [pv |-> pv, frame |-> f.name, kinds |-> kinds, wire |-> NoWire,
    chain |-> f.aChain, h |-> f.aH, bid |-> f.aBid,
    c |-> [height |-> f.cH, round |-> R, bid |-> f.cBid,
           sigs |-> [k \in 1..f.slots |-> SlotOf(kinds[k], Owner(n, k, f.rot), Other(n, k, f.rot), f.sx, 10 + k)]]]
@@ -139,18 +168,22 @@ LastKinds == {"dup", "nil_dup", "unknown", "addr_oth", "garbage", "ok"}
 
 SeedsOf(pv) ==
   LET n == Len(pv) IN
-       {[pv |-> pv, f |-> PlainFrame(n), mode |-> "exotic", P |-> Q] :
+       {[pv |-> pv, f |-> PlainFrame(n), mode |-> "exotic", P |-> Q, wire |-> NoWire] :
             Q \in {X \in SUBSET (1..n) : Cardinality(X) <= ExoticBudget(pv)}}
-  \cup {[pv |-> pv, f |-> f, mode |-> "core", P |-> {}] : f \in CommitFrames(n)}
-  \cup {[pv |-> pv, f |-> f, mode |-> "base", P |-> {}] : f \in ArgFrames(n)}
+  \cup {[pv |-> pv, f |-> f, mode |-> "core", P |-> {}, wire |-> NoWire] : f \in CommitFrames(n)}
+  \cup {[pv |-> pv, f |-> f, mode |-> "base", P |-> {}, wire |-> NoWire] : f \in ArgFrames(n)}
   \* extra slot beyond the set (only the trusting variant gets past the size check)
-  \cup {[pv |-> pv, f |-> [PlainFrame(n) EXCEPT !.name = "long_exotic", !.slots = n + 1], mode |-> "longex", P |-> {}]}
+  \cup {[pv |-> pv, f |-> [PlainFrame(n) EXCEPT !.name = "long_exotic", !.slots = n + 1], mode |-> "longex", P |-> {}, wire |-> NoWire]}
   \* FOREIGN commits (what VerifyCommitLightTrusting is for): the commit belongs to another validator set, so its
   \* length m and slot order are decoupled from vs -- shorter and longer than vs, every slot absent, signed by an
   \* unknown key, or a valid for-block signature of ANY member of vs (also members whose index is >= m), the same
   \* member any number of times
-  \cup {[pv |-> pv, f |-> [PlainFrame(n) EXCEPT !.name = "foreign", !.slots = m], mode |-> "foreign", P |-> {}] :
+  \cup {[pv |-> pv, f |-> [PlainFrame(n) EXCEPT !.name = "foreign", !.slots = m], mode |-> "foreign", P |-> {}, wire |-> NoWire] :
           m \in 1..(IF n = 0 THEN 0 ELSE IF n >= 4 THEN n ELSE n + 1)}
+  \* WIRE: the set under test went through its proto form and an adversary rewrote the fields nothing
+  \* authenticates; the commits are the plain ones (who signed: every subset of the members)
+  \cup (IF n = 0 THEN {} ELSE
+        {[pv |-> pv, f |-> [PlainFrame(n) EXCEPT !.name = "wire"], mode |-> "wire", P |-> {}, wire |-> w] : w \in WireVariants})
 Seeds == UNION {SeedsOf(pv) : pv \in PVs}
 
 \* a foreign commit from its signer vector: ow[k] = 0 unknown key, 1..n that member of vs, n+1 absent
@@ -158,7 +191,7 @@ CaseOfSigners(pv, f, ow) ==
   LET n == Len(pv)
       kindOf(k) == IF ow[k] = n + 1 THEN "absent" ELSE IF ow[k] = 0 THEN "unknown" ELSE "ok"
   IN
-  [pv |-> pv, frame |-> f.name, kinds |-> [k \in 1..f.slots |-> kindOf(k)],
+  [pv |-> pv, frame |-> f.name, kinds |-> [k \in 1..f.slots |-> kindOf(k)], wire |-> NoWire,
    chain |-> f.aChain, h |-> f.aH, bid |-> f.aBid,
    c |-> [height |-> f.cH, round |-> R, bid |-> f.cBid,
           sigs |-> [k \in 1..f.slots |-> SlotOf(kindOf(k), ValId(ow[k]), ValId(ow[k]), f.sx, 10 + k)]]]
@@ -171,9 +204,12 @@ VecsOf(sd) ==
   ELSE IF sd.mode = "core" THEN CoreVecs(m)
   ELSE IF sd.mode = "base" THEN [1..m -> BaseKinds]
   ELSE IF sd.mode = "foreign" THEN [1..m -> 0..(Len(sd.pv) + 1)]
+  ELSE IF sd.mode = "wire" THEN (IF m >= 4 THEN [1..m -> {"absent", "ok"}] ELSE [1..m -> BaseKinds])
   ELSE {[k \in 1..m |-> IF k < m THEN bs[k] ELSE last] : bs \in [1..(m - 1) -> BaseKinds], last \in LastKinds}
 
-CaseFor(sd, kv) == IF sd.mode = "foreign" THEN CaseOfSigners(sd.pv, sd.f, kv) ELSE CaseOf(sd.pv, sd.f, kv)
+CaseFor(sd, kv) ==
+  IF sd.mode = "foreign" THEN CaseOfSigners(sd.pv, sd.f, kv)
+  ELSE [CaseOf(sd.pv, sd.f, kv) EXCEPT !.wire = sd.wire]
 
 \* ---------------------------------------------------------------- the checked state space
 VARIABLES seed, cs, ready
@@ -185,9 +221,15 @@ CaseNext == /\ ~ready
             /\ seed' = seed
 
 In(c) == [vs |-> ValSetOf(c.pv), c |-> c.c, chain |-> c.chain, bid |-> c.bid, h |-> c.h]
-RFull(c)  == VerifyCommit(ValSetOf(c.pv), c.c, c.chain, c.bid, c.h)
-RLight(c) == VerifyCommitLight(ValSetOf(c.pv), c.c, c.chain, c.bid, c.h)
-RTrust(c, f) == VerifyCommitLightTrusting(ValSetOf(c.pv), c.c, c.chain, f[1], f[2])
+\* the ValidatorSet object the functions are called on: built in memory, or decoded from the (tampered) wire form
+Decoded(c) ==
+  LET vs == ValSetOf(c.pv) IN
+  IF c.wire.path = "none" THEN [ok |-> TRUE, err |-> "none", set |-> InMemory(vs)]
+  ELSE DecodeValSet(Encode(vs, ProposerField(c.wire.proposer, vs), ForgedTotal(c.wire.total, vs)))
+NoDecode == Reject("nodecode")
+RFull(c)  == LET d == Decoded(c) IN IF d.ok THEN VerifyCommitOn(d.set, c.c, c.chain, c.bid, c.h) ELSE NoDecode
+RLight(c) == LET d == Decoded(c) IN IF d.ok THEN VerifyCommitLightOn(d.set, c.c, c.chain, c.bid, c.h) ELSE NoDecode
+RTrust(c, f) == LET d == Decoded(c) IN IF d.ok THEN VerifyCommitLightTrustingOn(d.set, c.c, c.chain, f[1], f[2]) ELSE NoDecode
 
 \* C07, on the transcribed functions
 CaseSoundFull     == ready => SoundFull(In(cs), RFull(cs))
@@ -199,6 +241,13 @@ CaseAgree         == ready => Agree(In(cs), RFull(cs), RLight(cs))
 CaseGenuineAccepted ==
   (ready /\ cs.frame = "plain" /\ Len(cs.pv) > 0 /\ \A k \in DOMAIN cs.kinds : cs.kinds[k] = "ok")
      => RFull(cs).ok /\ RLight(cs).ok /\ \A f \in {<<1, 3>>, <<1, 2>>, <<2, 3>>} : RTrust(cs, f).ok
+\* decoding yields the same abstract set: nothing the adversary writes into the unauthenticated fields changes a verdict
+CaseWireNeutral ==
+  (ready /\ cs.wire.path # "none" /\ Decoded(cs).ok) =>
+     LET vs == ValSetOf(cs.pv) IN
+     /\ RFull(cs) = VerifyCommit(vs, cs.c, cs.chain, cs.bid, cs.h)
+     /\ RLight(cs) = VerifyCommitLight(vs, cs.c, cs.chain, cs.bid, cs.h)
+     /\ \A f \in Fracs : RTrust(cs, f) = VerifyCommitLightTrusting(vs, cs.c, cs.chain, f[1], f[2])
 \* whatever the full variant accepts, the early-exit variant accepts
 CaseFullImpliesLight == ready => (RFull(cs).ok => RLight(cs).ok)
 \* a fraction above 1 or a zero denominator is never satisfied
